@@ -97,6 +97,10 @@ class Ctx:
     def mine(self, i: int) -> bool:
         return i % self.nshards == self.shard
 
+    def mine_key(self, *parts) -> bool:
+        """partition by a stable key (robust when shards may count differently)"""
+        return derive_seed("mine", *parts) % self.nshards == self.shard
+
     def sub_rng(self, *parts) -> np.random.Generator:
         return np.random.Generator(np.random.PCG64(derive_seed(self.seed, self.prop, *parts)))
 
